@@ -164,11 +164,17 @@ pub fn judge_step(
                     "asm.checksum-error-for-malformed".into(),
                     "a line without the sentence shape was rejected with a CHECKSUM error".into(),
                 )),
-                _ => f.push((
-                    vec!["C08"],
-                    "asm.accepts-malformed".into(),
-                    format!("a line without the sentence shape was accepted: {}", out.show()),
-                )),
+                _ => {
+                    // accepted although the value after '*' (> 0xFF) cannot equal the XOR: also C02
+                    let wide = crate::spec::line::recognise_wide_checksum(line)
+                        .map(|(p, v)| !p.embedded_star && v != p.xor as u32)
+                        .unwrap_or(false);
+                    f.push((
+                        if wide { vec!["C08", "C02"] } else { vec!["C08"] },
+                        "asm.accepts-malformed".into(),
+                        format!("a line without the sentence shape was accepted: {}", out.show()),
+                    ))
+                }
             }
             if out.is_ok() || !unchanged {
                 if !unchanged {
